@@ -2,11 +2,47 @@
 from simcheck import sim_check
 
 
+def late_ack_scripts(rng, tier):
+    """several entities mutated in one tick travel in ONE mutate message; its acknowledgement is held back while one of them is
+    despawned / hidden and the next tick's mutate message is lost; when the acknowledgement finally arrives the other entities of
+    that message count as acknowledged: nothing of theirs may be sent again"""
+    import os, sys
+    from common import VERIF
+    sys.path.insert(0, os.path.join(VERIF, "gen"))
+    import scripts as gen_scripts
+    out = []
+    for i in range(30 if tier == "quick" else 1200):
+        pol = rng.choice(["all", "all", "black"])
+        lines = ["cfg policy=%s auth=none track=%d nclients=1 timeout=10000" % (pol, rng.randrange(2)), "start", "sframe 0 10", "connect 0 1200"]
+        nent = rng.randrange(2, 5)
+        alive = list(range(1, nent + 1))
+        for e in alive:
+            lines.append("sop spawn %d 1 0=%d 1=%d" % (e, rng.randrange(50), rng.randrange(50)))
+        lines += ["sframe 1 16", "deliver 0 s2c 0 all", "cframe 0", "deliver 0 c2s 0 all"]
+        val = 100
+        for _ in range(rng.randrange(1, 3)):
+            if len(alive) < 2:
+                break
+            for e in alive:
+                val += 1
+                lines.append("sop mutate %d %d=%d" % (e, rng.randrange(2), val))
+            lines += ["sframe 1 16", "deliver 0 s2c 0 all", "deliver 0 s2c 1 all", "cframe 0"]      # applied; the ack waits
+            victim = rng.choice(alive)
+            alive.remove(victim)
+            lines.append(rng.choice(["sop despawn %d" % victim, "sop unmark %d" % victim] + (["sop vis 0 %d 0" % victim] if pol == "black" else [])))
+            lines += ["sframe 1 16", "drop 0 s2c 1 all", "deliver 0 s2c 0 all", "cframe 0"]
+            lines += ["deliver 0 c2s 0 all", "sframe 1 16", "deliver 0 s2c 0 all", "deliver 0 s2c 1 all", "cframe 0", "deliver 0 c2s 0 all"]
+        meta = dict(connected=[0], events=False)
+        sf = len(lines)
+        out.append(("late-ack-%d" % i, lines + gen_scripts.settle_lines(meta), sf))
+    return out
+
+
 def run(tier, seed, replay):
     kws = [dict(burst=0.1, max_size=1), dict(burst=0.08, max_size=30, nclients=2), dict(track=True), dict(weights=dict(drop=2.0, deliver=3.0)), dict(nclients=3, max_size=30), dict(rel=True), dict(rel=True, max_size=1, nclients=2),
            dict(burst=0.1, max_size=1, timeout=40, quiet_tail=0.8), dict(burst=0.1, max_size=30, timeout=60, nclients=2, weights=dict(drop=2.0), quiet_tail=0.8), dict(timeout=100, track=True, max_size=1, quiet_tail=0.8),
            dict(max_size=1, quiet_tail=1.0, length=25), dict(max_size=1, quiet_tail=1.0, length=40, nclients=2, policy="all")]
-    return sim_check("C11", tier, seed, kws, n_quick=200, n_thorough=20000, oracle_props={"C11", "C01"},
+    return sim_check("C11", tier, seed, kws, n_quick=200, n_thorough=20000, oracle_props={"C11", "C01"}, custom_scripts=late_ack_scripts,
                      rule_extra=", acknowledgements delayed or held back, mutate messages dropped; the last settle tick must be silent (exactly one empty message per client with tracking)",
                      extra_assumptions=["acknowledgement timeouts: some scenarios run with mutations_timeout of 40-100 ms against frame times of 0-50 ms, so in-flight records expire before their acknowledgement; whether the repeating timer of cleanup_acks fires in a frame is an oracle input of the model, taken from a mirror of the same Timer in the harness",
                                         "relation graphs (sync_related_entities) are part of the pool: an idle server with registered graphs must stay silent (D07 regression)"])
